@@ -1,4 +1,4 @@
-EXTRACT_DEPS = ['PnRun.vo', 'PnInst.vo']
+EXTRACT_DEPS = ['PnRun.vo', 'PnInst.vo', 'Pn2Run.vo']
 
 
 def _trivial(inp, out):
